@@ -8,7 +8,7 @@ ALL = ["C%02d" % i for i in range(1, 21)]
 CHECKS = {
     "C01": ("exploration",
             "bounded exhaustive enumeration of (rule set x configuration x request) through the real request pipeline with a recording mock upstream, against a composition reference model",
-            "Every set of <=2 (thorough <=3) placed rules out of 34 rule texts x 3 placements, and 25 small sets x 5 blocking modes x 4 protection states x filtering on/off x 4 client kinds x 8 blocked-service settings (global and per-client lists, paused or not, alone and together); each with 7-9 names x 5 qtypes x 2 client addresses run through HandleBefore+handleDNSRequest of a real server (real filtering engine, real client storage, virtual clock). Oracle: blocked => mode's synthetic response and empty upstream log; otherwise exactly one upstream call and the upstream records and question intact.",
+            "Every set of <=2 (thorough <=3) placed rules out of 34 rule texts x 3 placements, and 25 small sets x 5 blocking modes x 4 protection states x filtering on/off x 4 client kinds x 9 blocked-service settings (global and per-client lists, paused, not paused or empty, alone and together); each with 7-9 names x 5 qtypes x 2 client addresses run through HandleBefore+handleDNSRequest of a real server (real filtering engine, real client storage, virtual clock). Oracle: blocked => mode's synthetic response and empty upstream log; otherwise exactly one upstream call and the upstream records and question intact.",
             "single-rule matching delegated to urlfilter's Match; composition, gates and response table are modelled independently; $dnsrewrite, safe browsing/parental/safe search excluded.",
             "DESIGN.md §4 C01", "E1-stateless"),
     "C02": ("exploration",
@@ -23,7 +23,7 @@ CHECKS = {
             "DESIGN.md §4 C03", "E1-stateless"),
     "C04": ("model_checking",
             "explicit-state BFS over operation histories executed on the real client.Storage, implementation-dump dedup, list-of-clients reference model checked on every transition",
-            "All histories of add/update(rename, change ids, switch own settings)/remove/DHCP-flip up to depth 3 (quick: 2 names, 8 colliding identifiers incl. nested/unmasked/offset CIDRs, 2 IPs, MAC, ClientID) or 4 (thorough: 3 names, 16 identifiers); after every transition accept/reject, unchanged-on-reject, index-map consistency and every lookup path are compared with the reference.",
+            "All histories of add/update(rename, change ids, switch own settings)/remove/DHCP-flip up to depth 3 (quick: 2 names, 8 colliding identifiers incl. nested/unmasked/offset CIDRs, 2 IPs, MAC, ClientID) or 4 (thorough: 3 names, 16 identifiers), plus a pass over zoned link-local IPv6 identifiers; after every transition accept/reject, unchanged-on-reject, index-map consistency and every lookup path are compared with the reference.",
             "between equally specific stored prefixes either owner is accepted; identifiers outside the pool and deeper histories are not covered; runs in-process with 16 worker goroutines (Storage instances are independent).",
             "DESIGN.md §4 C04", "E1-BFS"),
     "C05": ("model_checking",
